@@ -12,7 +12,7 @@ statically by bin/tdxlint; nothing from the repository is executed.
 Exit 0 when every applicable entry behaved as expected; 3 otherwise.
 Entries whose edit no longer applies to an edited tree are skipped and counted.
 """
-import json, os, shutil, subprocess, sys, tempfile, glob, concurrent.futures, time
+import json, os, re, shutil, subprocess, sys, tempfile, glob, concurrent.futures, time
 
 VERIF = os.path.dirname(os.path.dirname(os.path.abspath(__file__)))
 REPO = os.environ.get("TDX_REPO", "/repo")
@@ -64,8 +64,9 @@ def run_entry(entry, prop_filter):
                 return entry, "FAIL", ("not detected" if want else "false alarm") + " by " + prop + ": " + out[-1500:]
             if want and entry.get("expect_rule") and entry["expect_rule"] not in out:
                 return entry, "FAIL", "detected, but not by rule " + entry["expect_rule"] + ": " + out[-1500:]
-            results.append(prop)
-        return entry, "ok", ",".join(results)
+            rules = sorted(set(re.findall(r"rule (C\d\d/[A-Za-z0-9-]+)", out)))
+            results.append(prop + (" by " + "+".join(rules) if rules else ""))
+        return entry, "ok", ", ".join(results)
     finally:
         shutil.rmtree(tmp, ignore_errors=True)
 
@@ -81,7 +82,7 @@ def main():
     with concurrent.futures.ThreadPoolExecutor(max_workers=int(os.environ.get("SELFTEST_JOBS", "8"))) as ex:
         for entry, status, msg in ex.map(lambda e: run_entry(e, prop), corpus):
             stats[status] += 1
-            print(f"  [{status}] {entry['id']} ({entry['kind']}, {entry['property']}) {msg if status != 'ok' else ''}")
+            print(f"  [{status}] {entry['id']} ({entry['kind']}, {entry['property']}) {msg if status != 'ok' or entry['kind'] == 'mutant' else ''}")
             if status in ("FAIL", "error"):
                 fails.append(entry["id"])
     summary = {"entries": len(corpus), **stats, "wall_s": round(time.time() - t0, 1)}
